@@ -93,6 +93,11 @@ func verifHarness_C17_duplicates(k int, bad int) {
 		msgs = append(msgs, &MessageVerifBad6{})
 	case 7:
 		msgs = append(msgs, &MessageVerifBad7{})
+	case 8:
+		// the very same message value listed twice (a list built by concatenation): a duplicate id all the same
+		msgs = append(msgs, msgs[0])
+	case 9:
+		msgs = append(append([]message.Message{}, msgs...), msgs[k-1])
 	}
 	rw := &ReadWriter{Dialect: &Dialect{Version: 1, Messages: msgs}}
 	err := rw.Initialize()
